@@ -19,3 +19,52 @@ Theorem C07_example_nested :
   | PErr _ => False
   end.
 Proof. vm_compute. repeat split; reflexivity. Qed.
+
+From CC Require Import Model.CondSpec Proofs.CondFacts.
+
+(** THE PROPERTY, for every well-nested tree (any depth and width, #if / #ifdef / #ifndef heads,
+    any number of #elif, optional #else; conditions valued by the model's own evaluator; ordinary
+    lines anywhere, #define/#undef/#include/#error lines in unselected regions): the text that
+    reaches the compiler is exactly the text of the selected branches, the macro table is
+    untouched, the machine is back in its initial state, one table entry per surviving line *)
+Theorem C07_cond_machine_correct : forall (fname : string) (t : list item),
+  tree_ok t ->
+  exists p, run_cpp [] fname [] (flatten t) = POk p
+            /\ p_out p = String.concat "" (spec_active t)
+            /\ c_macros (p_ctx p) = []
+            /\ p_state p = Active /\ p_stack p = []
+            /\ List.length (p_map p) = List.length (spec_active t).
+Proof. exact cond_machine_correct. Qed.
+
+(** directives and ordinary lines in an unselected region change nothing (any include table, any
+    macros that do not rewrite the line itself) *)
+Theorem C07_inactive_is_inert : forall rec fs fname inc asm p line l,
+  plain_ok l = true \/ inert_ok l = true ->
+  sc_in_comment (c_scan (p_ctx p)) = false ->
+  replace_all (c_macros (p_ctx p)) l = l ->
+  p_state p <> Active ->
+  line_step rec fs fname inc asm p line l = POk p.
+Proof. exact inactive_is_inert. Qed.
+
+(** #define and #undef are inert in unselected regions whatever macros exist *)
+Theorem C07_inactive_define_undef_inert : forall rec fs fname inc asm p line l,
+  one_line l = true -> text_ok l = true ->
+  is_directive "#define" (trim l) || is_directive "#undef" (trim l) = true ->
+  sc_in_comment (c_scan (p_ctx p)) = false ->
+  p_state p <> Active ->
+  line_step rec fs fname inc asm p line l = POk p.
+Proof. exact inactive_define_undef_inert. Qed.
+
+(** the evaluator is C's on expressions over 0, 1, ! and == *)
+Theorem C07_evaluate_bool_correct : forall e : bexp, evaluate (print e) = EvOk (value e) "".
+Proof. exact evaluate_bool_correct. Qed.
+
+(** non-vacuity of tree_ok: a nested example with inert directives in dead regions *)
+Example C07_tree_ok_example :
+  tree_ok [Plain ("a" ++ nl);
+           group (HIf "0") [Inert ("#error boom" ++ nl); Plain ("b" ++ nl)]
+                 [("1 == 1", [Plain ("c" ++ nl); group (HIfdef "X") [Plain ("d" ++ nl)] [] (Some [Plain ("e" ++ nl)])]);
+                  ("1", [Inert ("#define X 1" ++ nl); Plain ("f" ++ nl)])]
+                 (Some [Plain ("g" ++ nl)]);
+           Plain ("h" ++ nl)].
+Proof. vm_compute. split; reflexivity. Qed.
